@@ -431,6 +431,38 @@ def static_contracts(u, N):
     pre = [OBJ(p, rec)] + vw.wf() + [ASSUME(fits), BUF(first, "sbv_m"), ASSUME("sbv_m <= %d" % N), SET(last, "%s + sbv_m" % first)]
     add(f, "assign(first,last)", pre, [("returns-iterator-past-written", "RET == %s + sbv_m" % vw.begin)] + [("byte-%d" % i, "%s[%d] == (%d < sbv_m ? %s[%d < sbv_m ? %d : 0] : OLD(%s[%d]))" % (vw.begin, i, i, first, i, i, vw.begin, i)) for i in range(N)],
         assigns=["__CPROVER_object_upto(%s, %d)" % (vw.begin, N)], mode="N", ghosts=GS2, props={"C14", "C10"})
+    # assign_range(r) / assign_string(r, eos) / assign(ilist): range object and initializer_list sources
+    def byte_after(i, src, mode=None):
+        pad = "OLD(%s[%d])" % (vw.begin, i) if mode is None else "((%s == 2 || (%s == 1 && sbv_m == %d)) ? 0 : OLD(%s[%d]))" % (mode, mode, i, vw.begin, i)
+        return "%s[%d] == (%d < sbv_m ? %s[%d < sbv_m ? %d : 0] : %s)" % (vw.begin, i, i, src, i, i, pad)
+
+    f = tgt("assign_range")
+    p, rec, vw = av(f)
+    r = f.p[1]
+    rrec = f.params[1]["rec"]
+    rb, re_ = "(*%s).%s" % (r, u.field(rrec, 0)), "(*%s).%s" % (r, u.field(rrec, 1))
+    srcpre = [OBJ(r, rrec), BUF(rb, "sbv_m"), SET(re_, "%s + sbv_m" % rb)]
+    add(f, "assign_range(r)", [OBJ(p, rec)] + vw.wf() + [ASSUME(fits)] + srcpre + [ASSUME("sbv_m <= %d" % N)], [("returns-iterator-past-written", "RET == %s + sbv_m" % vw.begin)] + [("byte-%d" % i, byte_after(i, rb)) for i in range(N)],
+        assigns=["__CPROVER_object_upto(%s, %d)" % (vw.begin, N)], mode="N", ghosts=GS2, props={"C14", "C10", "C01"})
+    f = tgt("assign_string_range")
+    p, rec, vw = av(f)
+    r, mode = f.p[1], f.p[2]
+    rrec = f.params[1]["rec"]
+    rb, re_ = "(*%s).%s" % (r, u.field(rrec, 0)), "(*%s).%s" % (r, u.field(rrec, 1))
+    srcpre = [OBJ(r, rrec), BUF(rb, "sbv_m"), SET(re_, "%s + sbv_m" % rb)]
+    add(f, "assign_string(range,eos)", [OBJ(p, rec)] + vw.wf() + [ASSUME(fits)] + srcpre + [ASSUME("sbv_m <= %d" % N), ASSUME("%s >= 0 && %s <= 2" % (mode, mode))],
+        [("returns-iterator-past-content", "RET == %s + sbv_m" % vw.begin)] + [("byte-%d" % i, byte_after(i, rb, mode)) for i in range(N)],
+        assigns=["__CPROVER_object_upto(%s, %d)" % (vw.begin, N)], mode="N", ghosts=GS2, props={"C14", "C10", "C01"})
+    f = tgt("assign_ilist")
+    p, rec, vw = av(f)
+    il = f.p[1]
+    irec = f.params[1]["rec"]
+    ia, iln = "%s.%s" % (il, u.field(irec, 0)), "%s.%s" % (il, u.field(irec, 1))
+    srcpre = [BUF(ia, "sbv_m"), SET(iln, "sbv_m")]
+    add(f, "assign(ilist)", [OBJ(p, rec)] + vw.wf() + srcpre + [ASSUME("sbv_m <= %d" % (N + 2))], [("array-in-bounds-or-reported", fits), ("list-fits-or-reported", "sbv_m <= %d" % N), ("returns-iterator-past-written", "RET == %s + sbv_m" % vw.begin)],
+        assigns=["%s && sbv_m <= %d: __CPROVER_object_upto(%s, %d)" % (fits, N, vw.begin, N)], ghosts=GS2, props={"C14", "C10"})
+    add(f, "assign(ilist)", [OBJ(p, rec)] + vw.wf() + [ASSUME(fits)] + srcpre + [ASSUME("sbv_m <= %d" % N)], [("returns-iterator-past-written", "RET == %s + sbv_m" % vw.begin)] + [("byte-%d" % i, byte_after(i, ia)) for i in range(N)],
+        assigns=["__CPROVER_object_upto(%s, %d)" % (vw.begin, N)], mode="N", ghosts=GS2, props={"C14", "C10", "C01"})
     # element access, iterators, sizes
     f = tgt("at")
     p, rec, vw = av(f)
